@@ -34,6 +34,8 @@ pub enum Action {
 	Mine,
 	/// Mine k empty blocks and tell every node.
 	MineEmpty(u32),
+	/// The miner leaves the mempool unconfirmed for k more blocks (confirmation delay).
+	Stall(u32),
 	/// Node sweeps its spendable outputs (settling phase).
 	Sweep(usize),
 	/// Deliver a corrupted copy of the revoke_and_ack at the head of link from→to
@@ -65,6 +67,7 @@ pub fn encode_action(a: &Action) -> String {
 		Action::Mine => "mine".to_string(),
 		Action::MineEmpty(k) => format!("mineempty:{}", k),
 		Action::Sweep(n) => format!("sweep:{}", n),
+		Action::Stall(k) => format!("stall:{}", k),
 		Action::TamperRaa(f, t, v) => format!("tamper:{}:{}:{}", f, t, v),
 		Action::Finish => "fin".to_string(),
 	}
@@ -119,6 +122,7 @@ pub fn decode_action(s: &str) -> Option<Action> {
 		"mine" => Action::Mine,
 		"mineempty" => Action::MineEmpty(rest.parse().ok()?),
 		"sweep" => Action::Sweep(rest.parse().ok()?),
+		"stall" => Action::Stall(rest.parse().ok()?),
 		"tamper" => {
 			let v = nums(':');
 			Action::TamperRaa(*v.get(0)? as usize, *v.get(1)? as usize, *v.get(2)? as u8)
@@ -234,6 +238,10 @@ pub struct WorldSys {
 	pub jump_left: u32,
 	pub sweep_at_end: bool,
 	pub sweep_tries: u32,
+	pub extra_rounds: u32,
+	/// confirmation delay: blocks the miner lets pass before confirming what is in the mempool
+	pub miner_delay: u32,
+	pub stalled: bool,
 	pub sweep_failures: Vec<String>,
 	pub tampered: bool,
 	pub last_raa: std::collections::BTreeMap<(usize, usize), lightning::ln::msgs::RevokeAndACK>,
@@ -280,6 +288,9 @@ impl WorldSys {
 			jump_left: u32::MAX,
 			sweep_at_end: false,
 			sweep_tries: 0,
+			extra_rounds: 0,
+			miner_delay: 0,
+			stalled: false,
 			sweep_failures: Vec::new(),
 			tampered: false,
 			last_raa: Default::default(),
@@ -351,12 +362,20 @@ impl WorldSys {
 			// on-chain settling: confirm whatever is in the mempool, bury it by the anti-reorg depth, let
 			// every timelock expire once, and repeat until nothing is left to confirm
 			if !self.w.chain.minable(&|_| 0).is_empty() && self.mines_done < 40 {
-				v.push(Action::Mine);
+				if self.miner_delay > 0 && !self.stalled {
+					v.push(Action::Stall(self.miner_delay));
+				} else {
+					v.push(Action::Mine);
+				}
 			} else if self.needs_bury {
 				v.push(Action::MineEmpty(7));
 			} else if self.sweep_at_end && self.sweep_tries < 40 && (0..n).any(|i| !self.w.unswept_descriptors(i).is_empty()) {
 				let i = (0..n).find(|i| !self.w.unswept_descriptors(*i).is_empty()).unwrap();
 				v.push(Action::Sweep(i));
+			} else if self.jumped && self.sweep_at_end && self.extra_rounds < 25 && self.any_claimable() {
+				// CSV-delayed outputs still maturing: let time pass
+				self.extra_rounds += 1;
+				v.push(Action::MineEmpty(20));
 			} else if !self.jumped {
 				// past every HTLC expiry: 100 blocks of CLTV delta per hop in the harness routes
 				let hops = self.ops.iter().map(|o| if let Op::Send { hops, .. } = o { hops.len() } else { 1 }).max().unwrap_or(1) as u32;
@@ -461,9 +480,15 @@ impl WorldSys {
 				}
 			},
 			Op::ClaimHeld { pay } => {
-				let (to, pre) = (self.w.payments[pay].to, self.w.payments[pay].preimage);
+				let (to, pre, hash) = (self.w.payments[pay].to, self.w.payments[pay].preimage, self.w.payments[pay].hash);
+				// the recipient can only release the preimage of a payment it was shown as claimable
+				let shown = self.w.obs.iter().any(|o| {
+					matches!(o, Obs::Event { node, ev: lightning::events::Event::PaymentClaimable { payment_hash, .. } } if *node == to && *payment_hash == hash)
+				});
 				self.w.nodes[to].cm.claim_funds(pre);
-				self.w.payments[pay].claimed_by_recipient = true;
+				if shown {
+					self.w.payments[pay].claimed_by_recipient = true;
+				}
 				self.w.pump();
 			},
 			Op::FailHeld { pay } => {
@@ -473,6 +498,10 @@ impl WorldSys {
 				self.w.pump();
 			},
 		}
+	}
+
+	fn any_claimable(&self) -> bool {
+		self.w.nodes.iter().any(|n| n.mon.get_claimable_balances(&[]).iter().any(|b| b.claimable_amount_satoshis() > 0))
 	}
 
 	fn do_crash(&mut self, n: usize, choice: u32, lost: Option<(usize, crate::world::Wire)>) -> Result<(), Failure> {
@@ -590,6 +619,7 @@ impl WorldSys {
 			},
 			Action::Mine => {
 				self.mines_done += 1;
+				self.stalled = false;
 				self.needs_bury = true;
 				if std::env::var("MC_TRACE").is_ok() {
 					for t in self.w.chain.mempool.iter() {
@@ -598,6 +628,15 @@ impl WorldSys {
 				}
 				self.w.mine_mempool_block();
 				self.w.sync_all();
+			},
+			Action::Stall(k) => {
+				self.stalled = true;
+				for _ in 0..*k {
+					self.w.mine_empty(1);
+					self.w.sync_all();
+					let held = self.held_events.clone();
+					self.w.handle_all_events(&held);
+				}
 			},
 			Action::Sweep(n) => {
 				self.sweep_tries += 1;
@@ -626,6 +665,8 @@ impl WorldSys {
 				while done < *k {
 					self.w.mine_empty(1);
 					self.w.sync_all();
+					let held = self.held_events.clone();
+					self.w.handle_all_events(&held);
 					done += 1;
 					if !self.w.chain.minable(&|_| 0).is_empty() {
 						break;
